@@ -568,3 +568,11 @@ const _: () = {
         }
     }
 };
+
+#[cfg(ohkami_verif)]
+impl Headers {
+    /// the size the serializer reserves for the header block
+    pub(crate) fn __verif_size(&self) -> usize {
+        self.size
+    }
+}
